@@ -134,7 +134,7 @@ fn main() {
             let path = format!("{dir}/{prop}.{tier}.json");
             std::fs::write(&path, serde_json::to_string_pretty(&table).unwrap()).expect("write power table");
             for (k, r) in table["rows"].as_object().unwrap() {
-                println!("{:28} cells={:4} nontrivial={:4} mass {}/{} scale {}/{} off1 {}/{}", k, r["cells"], r["nontrivial"], r["mass_defect_detected"], r["mass_defect_run"], r["scale_defect_detected"], r["scale_defect_run"], r["off_by_one_detected"], r["off_by_one_run"]);
+                println!("{:28} cells={:4} nontrivial={:4} mass {}/{} scale {}/{} off1 {}/{} atom {}/{}", k, r["cells"], r["nontrivial"], r["mass_defect_detected"], r["mass_defect_run"], r["scale_defect_detected"], r["scale_defect_run"], r["off_by_one_detected"], r["off_by_one_run"], r["atom_defect_detected"], r["atom_defect_run"]);
             }
             println!("power {prop} {tier}: rows below 90%: {weak}; table {path}; wall={:.1}s", t0.elapsed().as_secs_f64());
             std::process::exit(if weak == 0 { 0 } else { 2 });
